@@ -29,6 +29,10 @@ package c03
 //	                                                        separate, result, end) appended to a body paragraph through Paragraph.Runs, as the TOC builder does
 //	structprops   I:[tsel,row,col,indW] S:[indType,noWrap,hideMark] B:[ind,noWrap,hide]   formatting that has no setter, through the exported
 //	                                                        fields TableProperties.TableInd, TableCellProperties.NoWrap / HideMark
+//	vmergefields  I:[tsel,row1,row2,col] S:[contVal]         a vertical merge set through the exported field TableCellProperties.VMerge (as
+//	                                                        the library's own MergeCellsVertical does): "restart" on the first cell, and on
+//	                                                        the cells below it a VMerge whose Val is "continue" or left empty (w:val is
+//	                                                        optional, absent means continue: the form <w:vMerge/> that the struct writes then)
 //
 // plus the kind "reopen" of internal/ops (save, Open, continue editing the opened document).
 //
@@ -54,7 +58,7 @@ import (
 var wideKinds = map[string]bool{"imgresize": true, "imgpos": true, "imgwrap": true, "cellimgcfg": true, "cellimgfile": true,
 	"tblpagebreak": true, "rowkeepnext": true, "rowprops": true, "tbllayout": true, "delrows": true, "delcols": true, "cleartable": true,
 	"copytable": true, "createtable": true, "customtblstyle": true, "tblread": true, "docread": true, "multilist": true, "restartnum": true,
-	"pagesettings": true, "savefile": true, "fieldruns": true, "structprops": true}
+	"pagesettings": true, "savefile": true, "fieldruns": true, "structprops": true, "vmergefields": true}
 
 func isWide(k string) bool { return wideKinds[k] }
 
@@ -62,7 +66,7 @@ func isWide(k string) bool { return wideKinds[k] }
 var wideWeights = map[string]int{"imgresize": 2, "imgpos": 2, "imgwrap": 2, "cellimgcfg": 2, "cellimgfile": 1,
 	"tblpagebreak": 1, "rowkeepnext": 1, "rowprops": 3, "tbllayout": 2, "delrows": 2, "delcols": 2, "cleartable": 1,
 	"copytable": 2, "createtable": 2, "customtblstyle": 2, "tblread": 3, "docread": 2, "multilist": 2, "restartnum": 1,
-	"pagesettings": 3, "savefile": 5, "fieldruns": 2, "structprops": 2}
+	"pagesettings": 3, "savefile": 5, "fieldruns": 2, "structprops": 2, "vmergefields": 4}
 
 func init() {
 	for k, w := range wideWeights {
@@ -83,12 +87,13 @@ func init() {
 		tableTarget[k] = true
 	}
 	tableTarget["structprops"] = true
+	tableTarget["vmergefields"] = true
 	paraTarget["fieldruns"] = true
 	for _, k := range []string{"rowprops", "tbllayout", "customtblstyle", "pagesettings", "structprops"} {
 		formatSetters[k] = true
 	}
 	inPlaceKinds = append(inPlaceKinds, "imgresize", "imgpos", "imgwrap", "cellimgcfg", "rowprops", "rowprops", "tbllayout", "delrows", "cleartable",
-		"customtblstyle", "tblread", "tblread", "docread", "pagesettings", "rowkeepnext", "tblpagebreak", "fieldruns", "structprops")
+		"customtblstyle", "tblread", "tblread", "docread", "pagesettings", "rowkeepnext", "tblpagebreak", "fieldruns", "structprops", "vmergefields")
 }
 
 func sortStr(s []string) {
@@ -343,6 +348,31 @@ func doWide1(x *ops.Exec, o ops.Op, ws *wideState) error {
 				}
 			}
 		}
+	case "vmergefields":
+		if t := wideTable(x, o); t != nil {
+			r1, r2, col := opI(o, 1), opI(o, 2), opI(o, 3)
+			if r1 < 0 || r2 <= r1 || r2 >= t.GetRowCount() {
+				return fmt.Errorf("vmergefields: rows %d-%d out of range", r1, r2)
+			}
+			var cells []*document.TableCell
+			for r := r1; r <= r2; r++ {
+				cell, err := t.GetCell(r, col)
+				if err != nil || cell == nil {
+					return fmt.Errorf("vmergefields: no cell (%d,%d)", r, col)
+				}
+				cells = append(cells, cell)
+			}
+			for i, cell := range cells {
+				if cell.Properties == nil {
+					cell.Properties = &document.TableCellProperties{}
+				}
+				if i == 0 {
+					cell.Properties.VMerge = &document.VMerge{Val: "restart"}
+				} else {
+					cell.Properties.VMerge = &document.VMerge{Val: opS(o, 0)}
+				}
+			}
+		}
 	case "savefile":
 		// the file the final save of the built document goes to as well (Case.SaveAPI): a user who saves the document
 		// he is working on again and again under one name
@@ -474,6 +504,9 @@ func drawWide(t *rapid.T, k string) ops.Op {
 		o.S = []string{rapid.SampledFrom([]string{"dxa", "auto", "nil", ""}).Draw(t, "indt"), rapid.SampledFrom([]string{"", "1", "0", "true"}).Draw(t, "nowrap"),
 			rapid.SampledFrom([]string{"", "1", "0"}).Draw(t, "hide")}
 		o.B = []bool{bl(), bl(), bl()}
+	case "vmergefields":
+		o.I = []int{sel(), pos(), pos(), pos()}
+		o.S = []string{rapid.SampledFrom([]string{"", "", "continue"}).Draw(t, "contval")}
 	case "multilist":
 		n := rapid.SampledFrom([]int{0, 1, 2, 2, 3, 3, 4, 5, 11, 12}).Draw(t, "nitems")
 		for i := 0; i < n; i++ {
